@@ -277,12 +277,21 @@ def check_flatten(run, A):
             else:
                 ok = ok and any(is_call_to(x, 'builtin.abs') for x in walk_terms(qarg))
             ok = ok and const_val(call_arg(e.term, None, 'axis')) == -1
-    cmpst = [e for e in g.events if e.kind == 'store' and strip_views(e.term.args[2]).op == 'cmp']
-    okc = len(cmpst) == 2
-    for e in cmpst:
-        pol = [p for c, p in e.guards if c.op == 'cmp' and c.args[0] == 'GtE']
-        opn = strip_views(e.term.args[2]).args[0]
-        okc = okc and ((pol and pol[-1] and opn == 'Gt') or (pol and not pol[-1] and opn == 'Lt'))
+    # every comparison that fills the mask: `>` where quantile >= 0 holds, `<` where it does not (as two guarded stores, one store of a
+    # conditional comparison, or np.greater / np.less selected by the same test)
+    from ..walk import gamma_paths, cond_polarity
+    found = []
+    for e in g.events:
+        if e.kind != 'store':
+            continue
+        for conds, leaf in gamma_paths(e.term.args[2]):
+            leaf = strip_views(leaf)
+            if leaf.op != 'cmp' or leaf.args[0] not in ('Gt', 'Lt', 'GtE', 'LtE'):
+                continue
+            tests = list(conds.values()) + [cond_polarity(c, p) for c, p in e.guards]
+            pol = [p for c, p in tests if c.op == 'cmp' and c.args[0] == 'GtE']
+            found.append((leaf.args[0], pol[-1] if pol else None))
+    okc = {f for f in found} == {('Gt', True), ('Lt', False)}
     run.check(ok and okc, 'FORM', 'quantile_mask: q >= 0 marks points above the (1-q) quantile, q < 0 points below the |q| quantile', fn.loc(), '',
               f'percentile arguments ok: {ok}; comparison direction per branch ok: {okc}', construct=f'FORM::{q}::direction')
 
